@@ -437,13 +437,17 @@ ManagerDrop ==
   /\ UNCHANGED <<idCtr, toBack, seen, unsubSent, inq, nPeer, nTok, pushed, fault, st, rt, wd, feOpen, closeCh, wdAlive, cause, stRes, rtRes, closeSeen, fwd>>
 
 -----------------------------------------------------------------------------
-Next ==
-  \/ \E h \in Ops : FeAlloc(h) \/ FeEnqueue(h) \/ FeObserve(h)
-  \/ \E h \in Subs : SubNext(h) \/ SubEnd(h) \/ SubUnsubStart(h) \/ SubUnsubEnqueue(h) \/ SubDrained(h) \/ SubDrainOne(h) \/ SubDrop(h)
-  \/ StRecv \/ RtRecv \/ RtForward
-  \/ \E m \in Texts : PeerSend(m)
-  \/ \E f \in Faults : InjectFault(f)
-  \/ StSendFails \/ RtRecvFails \/ StNoticeClosed \/ RtNoticeClosed \/ RtHandOver \/ StCloseFront \/ StHandOver \/ StEnd \/ WdRecv \/ ManagerDrop
+(* the next-state relation, grouped by who takes the step (Gen_Client.tla weighs the groups when it simulates) *)
+AppStart    == \E h \in Ops : FeAlloc(h)                                     \* the application starts an operation
+FeNext      == \E h \in Ops : FeEnqueue(h) \/ FeObserve(h)                   \* its future makes progress
+StreamPoll  == \E h \in Subs : SubNext(h) \/ SubEnd(h)                       \* the application polls a stream
+StreamLeave == \E h \in Subs : SubUnsubStart(h) \/ SubDrop(h)                \* ... or gives it up
+StreamInt   == \E h \in Subs : SubUnsubEnqueue(h) \/ SubDrained(h) \/ SubDrainOne(h)
+TaskNext    == StRecv \/ RtRecv \/ RtForward                                 \* the two background tasks
+PeerNext    == \E m \in Texts : PeerSend(m)
+FaultNext   == \E f \in Faults : InjectFault(f)
+ShutNext    == StSendFails \/ RtRecvFails \/ StNoticeClosed \/ RtNoticeClosed \/ RtHandOver \/ StCloseFront \/ StHandOver \/ StEnd \/ WdRecv \/ ManagerDrop
+Next == AppStart \/ FeNext \/ StreamPoll \/ StreamLeave \/ StreamInt \/ TaskNext \/ PeerNext \/ FaultNext \/ ShutNext
 
 Spec == Init /\ [][Next]_vars
 FairSpec == Spec /\ WF_vars(StRecv) /\ WF_vars(RtRecv) /\ WF_vars(RtHandOver) /\ WF_vars(StCloseFront) /\ WF_vars(StHandOver)
